@@ -1,4 +1,24 @@
+//! E-CODEC engine part: C08 (RTPS message round-trip), C14 (time/duration wire conversion and
+//! arithmetic), C38 (UDP transport fragment-size range).
+//!
+//! `codec <ID> <quick|thorough> [--replay <file>]`
+
+mod c08;
+mod c14;
+mod c38;
+mod refwire;
+mod util;
+
 fn main() {
-    eprintln!("engine codec: not built yet");
-    std::process::exit(2);
+    let ctx = vcore::Ctx::from_args();
+    util::install_silent_panic_hook();
+    match ctx.id.as_str() {
+        "C08" => c08::main(&ctx),
+        "C14" => c14::main(&ctx),
+        "C38" => c38::main(&ctx),
+        other => {
+            eprintln!("engine codec does not serve property {other}");
+            std::process::exit(2);
+        }
+    }
 }
